@@ -121,6 +121,249 @@ def extract(src):
     return c
 
 
+# ----------------------------------------------------------------------------
+# T-formula: straight-line arithmetic of the anchored methods -> Gallina over R
+# ----------------------------------------------------------------------------
+
+_FUNCS = {"math.sin": "sin", "np.sin": "sin", "math.cos": "cos", "np.cos": "cos", "np.tan": "tan", "math.tan": "tan",
+          "np.sqrt": "sqrt", "math.sqrt": "sqrt", "np.arctan": "atan"}
+
+
+class Tr:
+    """expression translator; env maps the python source text of a name / attribute / subscript to Coq text;
+    env["@atan2"], env["@clip"], env["@wrap"] name the Coq functions standing for np.arctan2, np.clip, wrap_ra_diff"""
+
+    def __init__(self, env):
+        self.env = dict(env)
+
+    def e(self, n):
+        key = ast.unparse(n)
+        if key in self.env:
+            return self.env[key]
+        if isinstance(n, ast.Subscript) and ast.unparse(n.slice) == "w":       # element-wise on the selected entries
+            return self.e(n.value)
+        if isinstance(n, ast.BinOp):
+            ops = {ast.Add: "+", ast.Sub: "-", ast.Mult: "*", ast.Div: "/"}
+            if type(n.op) in ops:
+                return "(%s %s %s)" % (self.e(n.left), ops[type(n.op)], self.e(n.right))
+            if isinstance(n.op, ast.Pow):
+                k = _const(n.right, int)
+                if k < 0:
+                    raise TranslateError("negative power in %s" % key)
+                return "(%s ^ %d)" % (self.e(n.left), k)
+        if isinstance(n, ast.UnaryOp) and isinstance(n.op, ast.USub):
+            return "(- %s)" % self.e(n.operand)
+        if isinstance(n, ast.Constant) and isinstance(n.value, (int, float)) and not isinstance(n.value, bool):
+            return "(%s)" % cR_exact(float(n.value))
+        if isinstance(n, ast.Call) and not n.keywords:
+            f = ast.unparse(n.func)
+            if f in _FUNCS and len(n.args) == 1:
+                return "(%s %s)" % (_FUNCS[f], self.e(n.args[0]))
+            if f == "np.arctan2" and len(n.args) == 2 and "@atan2" in self.env:
+                return "(%s %s %s)" % (self.env["@atan2"], self.e(n.args[0]), self.e(n.args[1]))
+            if f == "np.clip" and len(n.args) == 3 and "@clip" in self.env:
+                return "(%s %s %s %s)" % (self.env["@clip"], self.e(n.args[0]), self.e(n.args[1]), self.e(n.args[2]))
+            if f == "wrap_ra_diff" and len(n.args) == 1 and "@wrap" in self.env:
+                return "(%s %s)" % (self.env["@wrap"], self.e(n.args[0]))
+        raise TranslateError("cannot translate expression %s" % key)
+
+    def block(self, stmts):
+        """straight-line assignments -> list of 'let v := e in' lines; rebinding shadows"""
+        lets = []
+        for st in stmts:
+            if isinstance(st, ast.Expr) and isinstance(st.value, ast.Constant) and isinstance(st.value.value, str):
+                continue                                   # docstring / commented-out code kept as a string
+            if isinstance(st, ast.Assign) and len(st.targets) == 1:
+                t = st.targets[0]
+                if isinstance(t, ast.Subscript) and ast.unparse(t.slice) == "w":
+                    t = t.value
+                if isinstance(t, ast.Name):
+                    v = self.e(st.value)
+                    nm = "v_" + t.id
+                    lets.append("let %s := %s in" % (nm, v))
+                    self.env[t.id] = nm
+                    continue
+            if isinstance(st, ast.AugAssign) and isinstance(st.target, ast.Name) and \
+                    type(st.op) in (ast.Mult, ast.Add, ast.Sub):
+                op = {ast.Mult: "*", ast.Add: "+", ast.Sub: "-"}[type(st.op)]
+                nm = "v_" + st.target.id
+                lets.append("let %s := (%s %s %s) in" % (nm, self.e(st.target), op, self.e(st.value)))
+                self.env[st.target.id] = nm
+                continue
+            raise TranslateError("cannot translate statement: %s" % ast.unparse(st))
+        return lets
+
+
+def _method(tree, name):
+    cls = [n for n in tree.body if isinstance(n, ast.ClassDef) and n.name == "WCS"]
+    if len(cls) != 1:
+        raise TranslateError("class WCS not found")
+    hits = [n for n in cls[0].body if isinstance(n, ast.FunctionDef) and n.name == name]
+    if len(hits) != 1:
+        raise TranslateError("method WCS.%s not found exactly once" % name)
+    return hits[0]
+
+
+def _args(fn, want):
+    got = [a.arg for a in fn.args.args]
+    if got != want:
+        raise TranslateError("%s has arguments %s, expected %s" % (fn.name, got, want))
+
+
+def _body(fn):
+    b = list(fn.body)
+    if b and isinstance(b[0], ast.Expr) and isinstance(b[0].value, ast.Constant) and isinstance(b[0].value.value, str):
+        b = b[1:]
+    return b
+
+
+BASE_ENV = {"math.pi": "PI", "d2r": "src_d2r", "r2d": "src_r2d"}
+
+
+def formulas(src):
+    """-> Coq text of the src_* definitions"""
+    tree = ast.parse(src)
+    out = []
+    # r2d, d2r
+    t = Tr({"math.pi": "PI"})
+    out.append("Definition src_r2d : R := %s." % t.e(_assign_name(tree, "r2d")))
+    out.append("Definition src_d2r : R := %s." % t.e(_assign_name(tree, "d2r")))
+
+    # --- CreateRotationMatrix
+    fn = _method(tree, "CreateRotationMatrix")
+    _args(fn, ["self"])
+    b = _body(fn)
+    if not (len(b) >= 3 and isinstance(b[-1], ast.Return) and ast.unparse(b[-1].value) == "r"):
+        raise TranslateError("CreateRotationMatrix does not end in 'return r'")
+    arr = b[-2]
+    if not (isinstance(arr, ast.Assign) and ast.unparse(arr.targets[0]) == "r" and isinstance(arr.value, ast.Call)
+            and ast.unparse(arr.value.func) == "np.array" and len(arr.value.args) == 1
+            and [k.arg for k in arr.value.keywords] == ["dtype"] and isinstance(arr.value.args[0], ast.List)):
+        raise TranslateError("CreateRotationMatrix: r is not np.array([[...]], dtype=...)")
+    t = Tr(dict(BASE_ENV, **{"self.longpole": "longpole", "self.native_longpole": "alpha_p",
+                              "self.native_latpole": "delta_p"}))
+    lets = t.block(b[:-2])
+    rows = arr.value.args[0].elts
+    if len(rows) != 3 or not all(isinstance(r_, ast.List) and len(r_.elts) == 3 for r_ in rows):
+        raise TranslateError("rotation matrix is not 3 x 3")
+    ents = "; ".join("[" + "; ".join(t.e(x) for x in r_.elts) + "]" for r_ in rows)
+    out.append("Definition src_rotation_matrix (alpha_p delta_p longpole : R) : list (list R) :=\n  %s\n  [%s]." % (
+        "\n  ".join(lets), ents))
+
+    # --- _rotate
+    fn = _method(tree, "_rotate")
+    _args(fn, ["self", "longitude", "latitude", "r"])
+    b = _body(fn)
+    if not (isinstance(b[-1], ast.Return) and ast.unparse(b[-1].value) == "(lon_new, lat_new)"):
+        raise TranslateError("_rotate does not return (lon_new, lat_new)")
+    env = dict(BASE_ENV, **{"longitude": "longitude", "latitude": "latitude", "@atan2": "f_atan2", "@clip": "f_clip"})
+    for i in range(3):
+        for j in range(3):
+            env["r[%d, %d]" % (i, j)] = "r%d%d" % (i, j)
+    t = Tr(env)
+    lets = t.block(b[:-1])
+    out.append("Definition src_rotate (f_atan2 : R -> R -> R) (f_clip : R -> R -> R -> R)\n"
+               "  (r00 r01 r02 r10 r11 r12 r20 r21 r22 longitude latitude : R) : R * R :=\n  %s\n  (%s, %s)." % (
+                   "\n  ".join(lets), t.env["lon_new"], t.env["lat_new"]))
+
+    # --- ApplyCDMatrix
+    fn = _method(tree, "ApplyCDMatrix")
+    _args(fn, ["self", "x", "y", "inverse"])
+    b = _body(fn)
+    if not (len(b) == 2 and isinstance(b[0], ast.If) and ast.unparse(b[0].test) == "not inverse"
+            and isinstance(b[1], ast.Return) and ast.unparse(b[1].value) == "(xp, yp)"):
+        raise TranslateError("ApplyCDMatrix has an unexpected shape")
+    for nm, branch, mat, attr in (("src_apply_cd", b[0].body, "cd", "self.cd"),
+                                  ("src_apply_cdinv", b[0].orelse, "cdinv", "self.cdinv")):
+        if not (branch and isinstance(branch[0], ast.Assign) and ast.unparse(branch[0]) == "%s = %s" % (mat, attr)):
+            raise TranslateError("ApplyCDMatrix: branch does not start with %s = %s" % (mat, attr))
+        env = {"x": "x", "y": "y"}
+        for i in range(2):
+            for j in range(2):
+                env["%s[%d, %d]" % (mat, i, j)] = "c%d%d" % (i, j)
+        t = Tr(env)
+        lets = t.block(branch[1:])
+        out.append("Definition %s (c00 c01 c10 c11 x y : R) : R * R :=\n  %s\n  (%s, %s)." % (
+            nm, "\n  ".join(lets), t.env["xp"], t.env["yp"]))
+
+    # --- image2sph: radius, native latitude (r > 0), native longitude
+    fn = _method(tree, "image2sph")
+    _args(fn, ["self", "x", "y"])
+    sts = {}
+    for n in ast.walk(fn):
+        if isinstance(n, ast.Assign) and len(n.targets) == 1:
+            sts.setdefault(ast.unparse(n.targets[0]), []).append(n.value)
+    need = {"r": 1, "latitude": 2, "latitude[w]": 1, "longitude": 1}
+    for k, cnt in need.items():
+        if len(sts.get(k, [])) != cnt:
+            raise TranslateError("image2sph: expected %d assignment(s) to %s, found %d" % (cnt, k, len(sts.get(k, []))))
+    t = Tr(dict(BASE_ENV, **{"x": "x", "y": "y", "np.zeros_like(x)": "0", "@atan2": "f_atan2"}))
+    e_r = t.e(sts["r"][0])
+    t.env["r"] = "r"
+    e_lat0 = t.e(sts["latitude"][0])
+    e_lat1 = t.e(sts["latitude"][1])
+    if t.e(sts["latitude[w]"][0]) != e_lat1:
+        raise TranslateError("image2sph: scalar and array branches compute different latitudes")
+    e_lon = t.e(sts["longitude"][0])
+    out.append("Definition src_image2sph_r (x y : R) : R := %s." % e_r)
+    out.append("Definition src_image2sph_lat_pole : R := %s." % e_lat0)
+    out.append("Definition src_image2sph_lat (r : R) : R := %s." % e_lat1)
+    out.append("Definition src_image2sph_lon (f_atan2 : R -> R -> R) (x y : R) : R := %s." % e_lon)
+
+    # --- sph2image: the two branches (scalar, [w]) must agree
+    fn = _method(tree, "sph2image")
+    _args(fn, ["self", "longitude", "latitude"])
+    sts = {}
+    for n in ast.walk(fn):
+        if isinstance(n, ast.Assign) and len(n.targets) == 1:
+            sts.setdefault(ast.unparse(n.targets[0]), []).append(n.value)
+    t = Tr(dict(BASE_ENV, **{"longitude": "longitude", "latitude": "latitude"}))
+    if len(sts.get("rdiv", [])) != 2 or len(sts.get("x[w]", [])) != 1 or len(sts.get("y[w]", [])) != 1 \
+            or len(sts.get("x", [])) != 2 or len(sts.get("y", [])) != 2:
+        raise TranslateError("sph2image has an unexpected shape")
+    e_rdiv = t.e(sts["rdiv"][0])
+    if t.e(sts["rdiv"][1]) != e_rdiv:
+        raise TranslateError("sph2image: branches compute different rdiv")
+    t.env["rdiv"] = "rdiv"
+    e_x, e_y = t.e(sts["x"][1]), t.e(sts["y"][1])
+    if t.e(sts["x[w]"][0]) != e_x or t.e(sts["y[w]"][0]) != e_y:
+        raise TranslateError("sph2image: scalar and array branches differ")
+    out.append("Definition src_sph2image (longitude latitude : R) : R * R :=\n  let rdiv := %s in (%s, %s)." % (e_rdiv, e_x, e_y))
+
+    # --- get_jacobian
+    fn = _method(tree, "get_jacobian")
+    _args(fn, ["self", "x", "y", "distort", "step"])
+    b = _body(fn)
+    calls = {"(ra, dec)": "(x, y", "(ra_p0, dec_p0)": "(xp, y", "(ra_m0, dec_m0)": "(xm, y", "(ra_0p, dec_0p)": "(x, yp",
+             "(ra_0m, dec_0m)": "(x, ym"}
+    rest = []
+    for st in b:
+        if isinstance(st, ast.Assign) and isinstance(st.targets[0], ast.Tuple):
+            k = ast.unparse(st.targets[0])
+            want = "self.image2sky%s, distort=distort)" % calls.get(k, "?")
+            if ast.unparse(st.value) != want:
+                raise TranslateError("get_jacobian: %s = %s, expected %s" % (k, ast.unparse(st.value), want))
+            calls.pop(k)
+        elif isinstance(st, ast.Return):
+            if ast.unparse(st.value) != "(dra_dx, dra_dy, ddec_dx, ddec_dy)":
+                raise TranslateError("get_jacobian returns %s" % ast.unparse(st.value))
+        elif isinstance(st, ast.Assign) and ast.unparse(st.targets[0]) in ("xp", "xm", "yp", "ym"):
+            want = {"xp": "x + step", "xm": "x - step", "yp": "y + step", "ym": "y - step"}[ast.unparse(st.targets[0])]
+            if ast.unparse(st.value) != want:
+                raise TranslateError("get_jacobian: %s" % ast.unparse(st))
+        else:
+            rest.append(st)
+    if calls:
+        raise TranslateError("get_jacobian: image2sky calls missing for %s" % sorted(calls))
+    names = ["ra", "dec", "ra_p0", "dec_p0", "ra_m0", "dec_m0", "ra_0p", "dec_0p", "ra_0m", "dec_0m"]
+    t = Tr(dict(BASE_ENV, **dict({n_: n_ for n_ in names}, **{"step": "step", "@wrap": "f_wrap"})))
+    lets = t.block(rest)
+    out.append("Definition src_jacobian (f_wrap : R -> R) (step ra dec ra_p0 dec_p0 ra_m0 dec_m0 ra_0p dec_0p ra_0m dec_0m : R)"
+               " : R * R * R * R :=\n  %s\n  (%s, %s, %s, %s)." % (
+                   "\n  ".join(lets), t.env["dra_dx"], t.env["dra_dy"], t.env["ddec_dx"], t.env["ddec_dy"]))
+    return "\n\n".join(out) + "\n"
+
+
 def cR_exact(x):
     fr = Fraction(float(x))
     n, d = fr.numerator, fr.denominator
@@ -183,6 +426,11 @@ def regenerate(impl_dir, coqdir):
     except SyntaxError as e:
         raise TranslateError("wcsutil.py does not parse: %s" % e)
     txt = gen_text(c)
+    try:
+        txt += ("\n(* ---- straight-line arithmetic of the anchored methods, translated from the source (T-formula) ---- *)\n"
+                "Open Scope R_scope.\n\n" + formulas(src))
+    except SyntaxError as e:
+        raise TranslateError("wcsutil.py does not parse: %s" % e)
     dst = os.path.join(coqdir, "theories", "C10", "Gen.v")
     old = open(dst).read() if os.path.exists(dst) else None
     if old == txt:
